@@ -182,18 +182,33 @@ theorem richNodes_nodup_real (ρ : K) (hρ : 1 < ρ) (step order nt : ℕ) (ho :
     have : step * c = step * c' := by omega
     exact Nat.eq_of_mul_eq_mul_left (by omega) this
 
-/-- error estimates of the first branch are non-negative -/
-theorem richErrShort_nonneg (eps fact : K) (he : 0 ≤ eps) (hf : 0 ≤ fact) (new steps : List K)
-    (hs : ∀ s ∈ steps, 0 ≤ s) : ∀ e ∈ richErrShort eps fact new steps, 0 ≤ e := by
+/-! The error estimates are stated for a sequence over any carrier `C` (real or complex numbers) with a
+non-negative "absolute value" `nrm : C → K` into the ordered field of the estimates. -/
+section carrier
+variable {C : Type} [Sub C] (nrm : C → K)
+
+theorem maxNrm_nonneg (hn : ∀ c, 0 ≤ nrm c) (a b : C) : 0 ≤ maxNrm nrm a b := by
+  unfold maxNrm
+  dsimp only
+  split_ifs
+  · exact hn b
+  · exact hn a
+
+/-- error estimates of the first branch are non-negative — for every sequence and for every steps,
+negative and complex ones included (`|steps|` is what enters since the repair recorded in
+known_findings.json; before it the statement needed `0 ≤ s` for every step, and the implementation
+returned negative estimates for the negative steps of a limit from below) -/
+theorem richErrShort_nonneg (hn : ∀ c, 0 ≤ nrm c) (eps fact : K) (he : 0 ≤ eps) (hf : 0 ≤ fact)
+    (new steps : List C) : ∀ e ∈ richErrShort nrm eps fact new steps, 0 ≤ e := by
   intro e he'
   unfold richErrShort at he'
   rw [List.mem_iff_getElem] at he'
   obtain ⟨i, hi, rfl⟩ := he'
-  simp only [List.getElem_zipWith, num_abs]
+  simp only [List.getElem_zipWith]
   have hi' : i < steps.length := by simp at hi; omega
   have hi'' : i < new.length := by simp at hi; omega
-  have := hs steps[i] (List.getElem_mem hi')
-  have := abs_nonneg new[i]
+  have := hn steps[i]
+  have := hn new[i]
   positivity
 
 theorem richFact_nonneg (t95 eps10 s : K) (h10 : 0 ≤ eps10) : 0 ≤ richFact t95 eps10 s := by
@@ -203,8 +218,8 @@ theorem richFact_nonneg (t95 eps10 s : K) (h10 : 0 ≤ eps10) : 0 ≤ richFact t
   · exact le_trans h10 (not_lt.mp h)
 
 /-- error estimates of the main branch are non-negative, for every input -/
-theorem richErrGo_nonneg (eps ten fact : K) (he : 0 ≤ eps) (ht : 0 ≤ ten) (hf : 0 ≤ fact) :
-    ∀ (new old : List K), ∀ e ∈ richErrGo eps ten fact new old, 0 ≤ e
+theorem richErrGo_nonneg (hn : ∀ c, 0 ≤ nrm c) (eps ten fact : K) (he : 0 ≤ eps) (ht : 0 ≤ ten) (hf : 0 ≤ fact) :
+    ∀ (new old : List C), ∀ e ∈ richErrGo nrm eps ten fact new old, 0 ≤ e
   | [], _ => by simp [richErrGo]
   | [_], _ => by simp [richErrGo]
   | _ :: _ :: _, [] => by simp [richErrGo]
@@ -212,21 +227,34 @@ theorem richErrGo_nonneg (eps ten fact : K) (he : 0 ≤ eps) (ht : 0 ≤ ten) (h
     intro e he'
     simp only [richErrGo, List.mem_cons] at he'
     rcases he' with rfl | h
-    · have h1 := abs_nonneg (b - a)
-      have h2 := maxAbs_nonneg b a
-      have h3 := abs_nonneg (a - o)
-      simp only [num_abs]
+    · have h1 := hn (b - a)
+      have h2 := maxNrm_nonneg nrm hn b a
+      have h3 := hn (a - o)
       split_ifs <;> positivity
-    · exact richErrGo_nonneg eps ten fact he ht hf (b :: rest) os e h
+    · exact richErrGo_nonneg hn eps ten fact he ht hf (b :: rest) os e h
 
-theorem richErrMain_nonneg (eps ten fact : K) (he : 0 ≤ eps) (ht : 0 ≤ ten) (hf : 0 ≤ fact)
-    (new old : List K) : ∀ e ∈ richErrMain eps ten fact new old, 0 ≤ e :=
-  richErrGo_nonneg eps ten fact he ht hf _ _
+theorem richErrMain_nonneg (hn : ∀ c, 0 ≤ nrm c) (eps ten fact : K) (he : 0 ≤ eps) (ht : 0 ≤ ten) (hf : 0 ≤ fact)
+    (new old : List C) : ∀ e ∈ richErrMain nrm eps ten fact new old, 0 ≤ e :=
+  richErrGo_nonneg nrm hn eps ten fact he ht hf _ _
+
+end carrier
+
+/-- real sequences: `nrm = |·|` -/
+theorem richErrMain_nonneg_real (eps ten fact : K) (he : 0 ≤ eps) (ht : 0 ≤ ten) (hf : 0 ≤ fact)
+    (new old : List K) : ∀ e ∈ richErrMain (Num.abs : K → K) eps ten fact new old, 0 ≤ e :=
+  richErrMain_nonneg _ (fun c => by simp only [num_abs]; exact abs_nonneg c) eps ten fact he ht hf new old
 
 end ordered
 
 /-! ### complex ratios with modulus above one -/
 section cplx
+/-- complex sequences (complex step ratio, spiral path): the estimates are non-negative reals -/
+theorem richErr_nonneg_complex (eps ten fact : ℝ) (he : 0 ≤ eps) (ht : 0 ≤ ten) (hf : 0 ≤ fact) (new old steps : List ℂ) :
+    (∀ e ∈ richErrMain (fun z : ℂ => ‖z‖) eps ten fact new old, 0 ≤ e) ∧
+    (∀ e ∈ richErrShort (fun z : ℂ => ‖z‖) eps fact new steps, 0 ≤ e) :=
+  ⟨richErrMain_nonneg _ (fun c => norm_nonneg c) eps ten fact he ht hf new old,
+   richErrShort_nonneg _ (fun c => norm_nonneg c) eps fact he hf new steps⟩
+
 theorem richNodes_nodup_complex (ρ : ℂ) (hρ : 1 < ‖ρ‖) (step order nt : ℕ) (ho : 1 ≤ order) (hs : 1 ≤ step) :
     (richNodes ρ step order nt).Nodup := by
   -- the moduli of the nodes are the (distinct) real nodes for ratio ‖ρ‖
